@@ -150,6 +150,37 @@ func RoundKeep(p *load.Program, name func(*ssa.Function) string, overlay map[str
 		b, _ := readFile(file)
 		return b
 	}
+	// first lower `A && f(x)` / `A || f(x)` around calls of candidates, so that the call is no longer
+	// evaluated conditionally inside an expression; inlining happens in a later round
+	{
+		objs := map[types.Object]string{}
+		for _, cd := range cands {
+			objs[cd.obj] = cd.qn
+		}
+		low := lowerShortCircuits(p, objs, src, counter)
+		if len(low) > 0 {
+			byFile := map[string][]lowered{}
+			for _, l := range low {
+				byFile[l.file] = append(byFile[l.file], l)
+			}
+			for file, ls := range byFile {
+				sort.Slice(ls, func(i, j int) bool { return ls[i].start > ls[j].start })
+				b := append([]byte(nil), src(file)...)
+				lastStart := len(b) + 1
+				for _, l := range ls {
+					if l.end > lastStart {
+						continue // nested in a statement already rewritten this round
+					}
+					b = append(b[:l.start], append([]byte(l.text), b[l.end:]...)...)
+					lastStart = l.start
+					res.Inlined = append(res.Inlined, "(lowered a short-circuit condition around a call of "+l.callee+")")
+				}
+				res.Overlay[file] = b
+			}
+			sort.Strings(res.Inlined)
+			return res
+		}
+	}
 	overlaps := func(file string, s, e int) bool {
 		for _, ed := range edits[file] {
 			if s < ed.end && ed.start < e {
@@ -258,6 +289,177 @@ func RoundKeep(p *load.Program, name func(*ssa.Function) string, overlay map[str
 	sort.Strings(res.Inlined)
 	sort.Strings(res.Skipped)
 	return res
+}
+
+type lowered struct {
+	file       string
+	start, end int
+	text       string
+	callee     string
+}
+
+// lowerShortCircuits rewrites statements whose condition / result / right-hand side is a && or || chain
+// that evaluates a call of one of objs conditionally:
+//
+//	if A && f(x) { B }        =>  c := A; if c { c = f(x) }; if c { B }
+//	return A || f(x)          =>  c := A; if !c { c = f(x) }; return c
+//
+// which is the definition of the short-circuit operators.
+func lowerShortCircuits(p *load.Program, objs map[types.Object]string, src func(string) []byte, counter *int) []lowered {
+	var out []lowered
+	fset := p.Fset
+	text := func(n ast.Node) string { return nodeText(fset, src, n) }
+	for _, pk := range p.Closure {
+		for _, f := range pk.Syntax {
+			var stack []ast.Node
+			done := map[ast.Stmt]bool{}
+			ast.Inspect(f, func(n ast.Node) bool {
+				if n == nil {
+					stack = stack[:len(stack)-1]
+					return true
+				}
+				stack = append(stack, n)
+				id, ok := n.(*ast.Ident)
+				if !ok {
+					return true
+				}
+				qn, isCand := objs[pk.TypesInfo.Uses[id]]
+				if !isCand {
+					return true
+				}
+				// climb: find the outermost logical expression under which this identifier sits on a right-hand side
+				var outer *ast.BinaryExpr
+				var child ast.Node = id
+				j := len(stack) - 2
+				for ; j >= 0; j-- {
+					switch x := stack[j].(type) {
+					case *ast.BinaryExpr:
+						if (x.Op == token.LAND || x.Op == token.LOR) && (x.Y == child || outer != nil) {
+							outer = x
+						} else if x.Op == token.LAND || x.Op == token.LOR {
+							// in the left operand: unconditional at this level; an enclosing chain may still matter
+							if outer != nil {
+								outer = x
+							}
+						}
+						child = x
+						continue
+					case ast.Expr:
+						if _, isLit := x.(*ast.FuncLit); isLit {
+							return true
+						}
+						child = x
+						continue
+					}
+					break
+				}
+				if outer == nil || j < 0 {
+					return true
+				}
+				st, isStmt := stack[j].(ast.Stmt)
+				if !isStmt || done[st] {
+					return true
+				}
+				// the whole expression position of the statement, through parentheses and one negation
+				pre, post := "", ""
+				var whole ast.Expr
+				switch x := st.(type) {
+				case *ast.IfStmt:
+					whole = x.Cond
+				case *ast.ReturnStmt:
+					if len(x.Results) == 1 {
+						whole = x.Results[0]
+					}
+				case *ast.AssignStmt:
+					if len(x.Lhs) == 1 && len(x.Rhs) == 1 && (x.Tok == token.ASSIGN || x.Tok == token.DEFINE) {
+						whole = x.Rhs[0]
+					}
+				}
+				if whole == nil {
+					return true
+				}
+				e := whole
+				for {
+					if pe, isP := e.(*ast.ParenExpr); isP {
+						e = pe.X
+						continue
+					}
+					if ue, isU := e.(*ast.UnaryExpr); isU && ue.Op == token.NOT && pre == "" {
+						pre, post = "!(", ")"
+						e = ue.X
+						continue
+					}
+					break
+				}
+				if e != ast.Expr(outer) {
+					return true
+				}
+				parent := stack[j-1]
+				inList := inStmtList(parent, st)
+				elsePos := false
+				if pif, isIf := parent.(*ast.IfStmt); isIf && pif.Else == st {
+					elsePos = true
+				}
+				if !inList && !elsePos {
+					return true
+				}
+				*counter++
+				c := fmt.Sprintf("inlC%d", *counter)
+				guard := c
+				if outer.Op == token.LOR {
+					guard = "!" + c
+				}
+				var b strings.Builder
+				head := fmt.Sprintf("%s := %s\nif %s {\n%s = %s\n}\n", c, text(outer.X), guard, c, text(outer.Y))
+				switch x := st.(type) {
+				case *ast.IfStmt:
+					if outer.Op == token.LAND && x.Else == nil && x.Init == nil && pre == "" && !elsePos {
+						// no else: plain nesting, no flag needed
+						full := text(x)
+						bodyOff := fset.Position(x.Body.Pos()).Offset - fset.Position(x.Pos()).Offset
+						if bodyOff < 0 || bodyOff > len(full) {
+							return true
+						}
+						b.WriteString("if " + text(outer.X) + " {\nif " + text(outer.Y) + " " + full[bodyOff:] + "\n}\n")
+						break
+					}
+					braces := x.Init != nil || elsePos
+					if braces {
+						b.WriteString("{\n")
+					}
+					if x.Init != nil {
+						b.WriteString(text(x.Init) + "\n")
+					}
+					b.WriteString(head)
+					full := text(x)
+					bodyOff := fset.Position(x.Body.Pos()).Offset - fset.Position(x.Pos()).Offset
+					if bodyOff < 0 || bodyOff > len(full) {
+						return true
+					}
+					b.WriteString("if " + pre + c + post + " " + full[bodyOff:] + "\n")
+					if braces {
+						b.WriteString("}\n")
+					}
+				case *ast.ReturnStmt:
+					if elsePos {
+						return true
+					}
+					b.WriteString(head)
+					b.WriteString("return " + pre + c + post + "\n")
+				case *ast.AssignStmt:
+					if elsePos {
+						return true
+					}
+					b.WriteString(head)
+					b.WriteString(text(x.Lhs[0]) + " " + x.Tok.String() + " " + pre + c + post + "\n")
+				}
+				done[st] = true
+				out = append(out, lowered{fset.Position(st.Pos()).Filename, fset.Position(st.Pos()).Offset, fset.Position(st.End()).Offset, b.String(), qn})
+				return true
+			})
+		}
+	}
+	return out
 }
 
 // calleeUnsafe returns why the function must not be inlined ("" if it may).
